@@ -55,7 +55,7 @@ Lemma app_plus_free a b : plus_free a -> plus_free b -> plus_free (a ++ b).
 Proof. intros. apply Forall_app. split; assumption. Qed.
 
 Lemma ident_plus_free i : id_wf i -> plus_free (ident_print i).
-Proof. destruct i as [s|n]; cbn; [intros [_ [H _]]; apply alnum_plus_free, H|intros _; apply print_dec_plus_free]. Qed.
+Proof. destruct i as [s|n]; cbn [ident_print id_wf]; [intros [[_ [H _]] _]; apply alnum_plus_free, H|intros _; apply print_dec_plus_free]. Qed.
 
 Lemma idents_plus_free l : Forall id_wf l -> plus_free (idents_print l).
 Proof.
